@@ -48,7 +48,7 @@ func TestVerif(t *testing.T) { vrMain(t, vbClauses) }
 
 var vbClauses = []vrClause{
 	{Prop: "C04", Name: "roundtrip",
-		Bound: "systematic: every N in -1..14 and extreme N; for every N in 3..12 chrom (not starting with '#') and name over all words of length <=2 over {dquote,space,comma,0x01,0x80,a,#,:}, every int field over extreme values, every strand, RGB corners, block lists of 0..3; long lines (Name with N = 4 and 12, Chrom with N = 3, of 4000, 4096, 5000, 70000, 200000 bytes); then random records until the time budget",
+		Bound: "systematic: every N in -1..14 and extreme N; for every N in 3..12 chrom (not starting with '#') and name over all words of length <=2 over {dquote,space,comma,0x01,0x80,a,#,:,%} and the texts %, 50%, %d, %s%s, 100%%, %!, 100%_identity, every int field over extreme values, every strand, RGB corners, block lists of 0..3; long lines (Name with N = 4 and 12, Chrom with N = 3, of 4000, 4096, 5000, 70000, 200000 bytes); then random records until the time budget",
 		Rule:  "N in 3..12: Write ok, MarshalText == Write, one line of exactly N tab-separated fields, Reader gives back N and the first N fields, rest zero; otherwise Write/MarshalText refuse and emit nothing",
 		Gen:   vbGenRoundtrip, Run: vbRunRoundtrip},
 	{Prop: "C04", Name: "file",
@@ -64,8 +64,8 @@ var vbClauses = []vrClause{
 		Rule:  "items of Reader on the chunked stream == items on bytes.Reader",
 		Gen:   vbGenChunking, Run: vbRunChunking},
 	{Prop: "C06", Name: "crlf",
-		Bound: "random well-formed files (LF) re-terminated with CRLF",
-		Rule:  "same items with LF and CRLF",
+		Bound: "50 fixed texts of two records (N = 3, 6, 12) with blank lines (leading, between the records, one or two trailing, everywhere, next to comment lines; with and without the final terminator; blank lines only); then random well-formed files (LF), every third with 1..2 blank lines inserted at random line starts, re-terminated with CRLF",
+		Rule:  "same items with LF and CRLF (the CRLF text is the LF text with every LF replaced by CRLF, so a blank line becomes CR LF)",
 		Gen:   vbGenCRLF, Run: vbRunCRLF},
 	{Prop: "C06", Name: "file",
 		Bound: "random inputs x {plain, .gz} and a missing path",
@@ -76,7 +76,7 @@ var vbClauses = []vrClause{
 		Rule:  "only leading records of the fault-free decode, then a non-nil error, finitely many items",
 		Gen:   vbGenReadFault, Run: vbRunReadFault},
 	{Prop: "C07", Name: "write-fault",
-		Bound: "random records (every N) x every k in 0..len(output)+1 x {forever, once}",
+		Bound: "2 long records (Name of 5000 bytes with N = 12, Chrom of 10000 bytes with N = 3) x k in the last 4200 bytes of the line .. len(output)+2 (5 KB line: every k; 10 KB line: every 5th k and every k in the last 256 bytes) and every 97th k before x {forever; once for every 5th of these k and the last 4}; the base record of every N and then random records (every N) x every k in 0..len(output)+1 x {forever, once}",
 		Rule:  "Write returns non-nil error iff k < len(output)",
 		Gen:   vbGenWriteFault, Run: vbRunWriteFault},
 	{Prop: "C11", Name: "total",
@@ -458,9 +458,12 @@ func vbRenderRecs(recs []*BED) []byte {
 // ---------------------------------------------------------------------------
 // generators of records / files
 
-var vbAlphaQ = []byte{'"', ' ', ',', 0x01, 0x80, 0xff, 0x7f, 'a', 'Z', '0', '#', ':', '*', '\'', '\\', '+', '-', '.', '"'}
-var vbAlphaNQ = []byte{' ', ',', 0x01, 0x80, 0xff, 0x7f, 'a', 'Z', '0', '#', ':', '*', '\'', '\\', '+', '-', '.'}
-var vbTextPool = []string{"", "chr1", "chrX", "gene-1", "a b", "x,y", ".", "+", "0"}
+var vbAlphaQ = []byte{'"', ' ', ',', 0x01, 0x80, 0xff, 0x7f, 'a', 'Z', '0', '#', ':', '*', '\'', '\\', '+', '-', '.', '"', '%'}
+var vbAlphaNQ = []byte{' ', ',', 0x01, 0x80, 0xff, 0x7f, 'a', 'Z', '0', '#', ':', '*', '\'', '\\', '+', '-', '.', '%'}
+var vbTextPool = []string{"", "chr1", "chrX", "gene-1", "a b", "x,y", ".", "+", "0", "50%", "%d", "%s%s", "100%%"}
+
+// vbPercentTexts: texts that a writer using a field as a printf format would mangle.
+var vbPercentTexts = []string{"%", "50%", "%d", "%s%s", "100%%", "%!", "100%_identity"}
 var vbQuotePool = []string{`"`, `""`, `a"b`, `"abc"`, `"a`, `a"`}
 var vbIntPool = []int{0, 1, -1, 2, 1000, 255, 65535, 1<<31 - 1, -(1 << 31), 1 << 32, math.MaxInt64, math.MinInt64, math.MaxInt64 - 1, -12345}
 var vbStrands = []string{"", "+", "-", "."}
@@ -580,10 +583,19 @@ func vbGenRoundtrip(g *vrGen) {
 		z := &BED{N: n}
 		emit(z)
 	}
-	sys := []byte{'"', ' ', ',', 0x01, 0x80, 'a', '#', ':'}
+	sys := []byte{'"', ' ', ',', 0x01, 0x80, 'a', '#', ':', '%'}
 	for n := 3; n <= 12; n++ {
 		emit(vbBaseRec(n))
 		emit(&BED{N: n})
+		// printf-verb look-alikes as chrom and as name
+		for _, w := range vbPercentTexts {
+			b := vbBaseRec(n)
+			b.Chrom = w
+			emit(b)
+			b = vbBaseRec(n)
+			b.Name = w
+			emit(b)
+		}
 		vrWords(sys, 2, func(w []byte) bool {
 			if len(w) == 0 || w[0] != '#' {
 				b := vbBaseRec(n)
@@ -1244,10 +1256,64 @@ func vbRunChunking(in map[string]any) vrResult {
 // ---------------------------------------------------------------------------
 // C06/crlf
 
+// vbBlankTexts: well-formed LF texts of two records (N = 3, 6, 12) with blank
+// lines: leading, between the records, trailing (one and two), everywhere, next
+// to a comment line, with and without the final line terminator, and texts of
+// blank lines only.
+func vbBlankTexts() [][]byte {
+	var out [][]byte
+	for _, n := range []int{3, 6, 12} {
+		b2 := vbBaseRec(n)
+		b2.Chrom, b2.Name = "chr2", "other"
+		r1 := strings.Join(vbRenderFields(vbBaseRec(n)), "\t") + "\n"
+		r2 := strings.Join(vbRenderFields(b2), "\t") + "\n"
+		for _, t := range []string{
+			r1 + "\n" + r2,
+			r1 + r2 + "\n",
+			r1 + r2 + "\n\n",
+			"\n" + r1 + r2,
+			"\n\n" + r1 + "\n\n" + r2 + "\n\n",
+			"# comment\n\n" + r1 + "\n# comment\n\n" + r2 + "\n",
+			r1 + "\n",
+		} {
+			out = append(out, []byte(t), []byte(strings.TrimSuffix(t, "\n")))
+		}
+	}
+	for _, t := range []string{"\n", "\n\n", "\n\n\n", "# comment\n\n"} {
+		out = append(out, []byte(t), []byte(strings.TrimSuffix(t, "\n")))
+	}
+	return out
+}
+
+// vbInsertBlanks inserts 1..2 extra line terminators (blank lines) at random
+// line starts of an LF text (also in front and at the end).
+func vbInsertBlanks(r *rand.Rand, data []byte) []byte {
+	var out []byte
+	blank := func() {
+		if r.Intn(3) == 0 {
+			out = append(out, "\n\n"[:1+r.Intn(2)]...)
+		}
+	}
+	blank()
+	for _, c := range data {
+		out = append(out, c)
+		if c == '\n' {
+			blank()
+		}
+	}
+	return out
+}
+
 func vbGenCRLF(g *vrGen) {
+	for _, d := range vbBlankTexts() {
+		g.Case(map[string]any{"data": vrB(d)})
+	}
 	max := vbMaxCases(g, 20000, 100000)
 	for i := 0; i < max && !g.Expired(); i++ {
 		data := vbRenderRecs(vbRandRecs(g.Rand, false, 5))
+		if i%3 == 2 {
+			data = vbInsertBlanks(g.Rand, data)
+		}
 		if g.Rand.Intn(4) == 0 && len(data) > 0 {
 			data = data[:len(data)-1] // no final line terminator
 		}
@@ -1502,6 +1568,16 @@ func (w *vbFaultWriter) Write(p []byte) (int, error) {
 	return n, vbErrInjected
 }
 
+// vbLongFaultRecs: records whose written line is longer than a 4096-byte
+// buffer: a Name of 5000 bytes with N = 12, a Chrom of 10000 bytes with N = 3.
+func vbLongFaultRecs() []*BED {
+	a := vbBaseRec(12)
+	a.Name = vbRep("feature_", 5000)
+	c := vbBaseRec(3)
+	c.Chrom = vbRep("chrUn_", 10000)
+	return []*BED{a, c}
+}
+
 func vbGenWriteFault(g *vrGen) {
 	emit := func(b *BED) int {
 		total := len(strings.Join(vbRenderFields(b), "\t")) + 3
@@ -1511,6 +1587,28 @@ func vbGenWriteFault(g *vrGen) {
 			g.Case(map[string]any{"record": rec, "k": k, "mode": "once"})
 		}
 		return 2 * (total + 1)
+	}
+	// long records first (a writer that buffers internally must still report a
+	// fault that only its last flush meets): k in the last 4200 bytes of the
+	// line .. len+2 (the 5 KB line: every k; the 10 KB line: every 5th k and every
+	// k in the last 256 bytes), every 97th k before; mode once: every 5th of
+	// these k and the last 4
+	for i, b := range vbLongFaultRecs() {
+		total := vbWrittenLen(b)
+		rec := vbEncRec(b)
+		for j, k := 0, 0; k <= total+2 && !g.Expired(); k++ {
+			if k < total-4200 && k%97 != 0 {
+				continue
+			}
+			if i > 0 && k >= total-4200 && k < total-256 && k%5 != 0 {
+				continue
+			}
+			g.Case(map[string]any{"record": rec, "k": k, "mode": "forever"})
+			if j%5 == 0 || k >= total-1 {
+				g.Case(map[string]any{"record": rec, "k": k, "mode": "once"})
+			}
+			j++
+		}
 	}
 	n := 0
 	for nn := 3; nn <= 12; nn++ {
